@@ -93,7 +93,8 @@ def main():
                     matrix["seeds"][name] = {"property": meta["property"], "applies_on_head": False, "head": head, "note": ap.stderr.strip()[:200]}
                     print(name, "DOES NOT APPLY")
                     continue
-                res = run_checks(ids)
+                # --fast: only the seed's own property and the checks that caught it before (no discovery of new catchers)
+                res = run_checks(sorted({meta["property"]} | set(meta.get("detected_by_checks") or [])) if "--fast" in a else ids)
                 restore()
                 det = sorted(c for c, r in res.items() if r["exit"] == 1)
                 broken = sorted(c for c, r in res.items() if r["exit"] not in (0, 1))
